@@ -279,12 +279,18 @@ pub fn run(rep: &mut Report) {
             grid.push((p, q));
         }
     }
-    let stats = sweep(&grid, |st, _, &(p, q)| construct(st, p, q));
+    let stats = sweep(&grid, |st, _, &(p, q)| {
+        construct(st, p, q);
+        st.sample(2, || json!({"construct": [p, q]}));
+    });
     rep.absorb("construct", "all p/q with 1 <= q <= 64, |p| <= 3q (both tuple sign conventions): canonical representative, classification, scaling by -5..5, negation", true, None, t0, stats);
     // pairs
     let t0 = Instant::now();
     let all = all_phases(if quick { 24 } else { 64 });
-    let stats = sweep(&all, |st, _, &a| pairs(st, a, &all));
+    let stats = sweep(&all, |st, _, &a| {
+        pairs(st, a, &all);
+        st.sample(1, || json!({"pairs_with": format!("{:?}", a)}));
+    });
     rep.absorb("pairs", &format!("all ordered pairs of the {} canonical phases with denominator <= {}: +, -, +=, -=, ==", all.len(), if quick { 24 } else { 64 }), true, None, t0, stats);
     // limit_denominator
     let t0 = Instant::now();
